@@ -338,6 +338,59 @@ func runC05(e *core.Env, n int) {
 	}
 	pending = nil
 
+	// a full-duplex handler whose reader goroutine is parked in a receive (the client has nothing more to say and
+	// has not closed its send side) when the handler itself sends its replies and returns: the client's receives
+	// drain the replies and get the final status; nothing waits for the parked reader
+	e.Cases("handler-returns-with-reader-parked", e.N(12, 100), func(i int, r *rand.Rand) {
+		c := carriers[0]
+		sc := &Script{Kind: Bidi}
+		for k := r.Intn(3); k > 0; k-- {
+			sc.Sender = append(sc.Sender, Op{Op: "send", Msg: &tpb.Message{Payload: []byte("said")}})
+		}
+		sc.Receiver = []Op{{Op: "recvall"}}
+		sc.Handler = []Op{{Op: "spawn-recv"}, {Op: "gate", Gate: "reader-parked"}}
+		for k := r.Intn(4); k > 0; k-- {
+			sc.Handler = append(sc.Handler, Op{Op: "send", Msg: &tpb.Message{Payload: []byte("reply")}})
+		}
+		if r.Intn(3) == 0 {
+			sc.Ret = Ret{How: "status", Code: uint32(1 + r.Intn(16)), Msg: "handler failed"}
+		}
+		run := c.Svc.NewRun(sc, c.Name)
+		defer c.Svc.Forget(run)
+		done := make(chan struct{})
+		go func() {
+			run.Exec(c.CC, nil, 120*time.Second)
+			close(done)
+		}()
+		// the reader goroutine has taken what the client sent and is parked in its next receive
+		for k := 0; k < 400; k++ {
+			n := 0
+			for _, ev := range run.Events() {
+				if ev.Who == "hr" && ev.Op == "bg-recv" && ev.Call {
+					n++
+				}
+			}
+			if n > len(sc.Sender) {
+				break
+			}
+			time.Sleep(time.Millisecond)
+		}
+		time.Sleep(2 * time.Millisecond)
+		run.Release("reader-parked")
+		fin, stuck, dump := waitDoneOrStuck(done, 60*time.Second)
+		e.Eval(c.Name+"|reader-parked|"+sc.Shape(), true)
+		if !fin {
+			if stuck {
+				e.Violate(c.Name+"/bidi/deadlock/handler-returned-with-reader-parked", "the handler sent its replies and returned while its reader goroutine was parked in a receive; the client's receives never got the final status: "+parkedSummary(dump), map[string]any{"script": sc, "events": run.Events(), "goroutines": trunc(dump, 20000)})
+			} else {
+				e.Inconclusive("C05 handler-returns-with-reader-parked: watchdog without a stable park")
+			}
+			forceEnd(run, done)
+			return
+		}
+		run.Cancel()
+	})
+
 	// a send that the client side itself rejects (the message cannot be encoded), then CloseSend and a receive: the
 	// half-close still ends the request stream, so the handler (which consumes it and answers) and the client finish
 	// on their own - nothing has to be cancelled
